@@ -1,6 +1,14 @@
 """C01 — emitted frames are the NxScope serial wire format and round-trip."""
+import binascii
+
 from common import Prop, hexs, unhex, exc_name
 from ref import ref_frame, ref_crc16_xmodem
+
+# two independent CRC-16/XMODEM implementations (neither is nxslib's crcmod): the bitwise one written from the
+# protocol description (ref.py) and CPython's binascii.crc_hqx (poly 0x1021, MSB first) — they must agree
+assert binascii.crc_hqx(b"123456789", 0) == 0x31C3 == ref_crc16_xmodem(b"123456789")
+_probe = bytes((i * 73 + 11) & 0xFF for i in range(5000))
+assert binascii.crc_hqx(_probe, 0) == ref_crc16_xmodem(_probe)
 
 
 def _sf():
@@ -8,41 +16,104 @@ def _sf():
     return SerialFrame()
 
 
+def rb(rng, n):
+    return rng.randbytes(n)
+
+
+def wire(fid, p):
+    """the NxScope serial encoding, written from the protocol description (ref_frame), with the C CRC for long payloads"""
+    if len(p) <= 600:
+        return ref_frame(fid, p)
+    n = len(p) + 6
+    pre = bytes([0x55, n & 0xFF, n >> 8, fid & 0xFF]) + p
+    return pre + binascii.crc_hqx(pre, 0).to_bytes(2, "big")
+
+
+# payload lengths around the byte boundaries of the 16-bit length field (total = payload + 6)
+LEN16 = [249, 250, 251, 255, 256, 257, 32761, 32762, 32763, 32767, 32768, 32769]
+
+
 class C01(Prop):
     id = "C01"
     lean_module = "NxsModel.Props.C01"
-    rule = ("frame create/decode over ids 0..8 (plus 9..256) x payload lengths 0..300, boundary lengths "
-            "65527..65531, random lengths; crc over random strings; distinct = distinct (op,input,output); "
-            "non-trivial = payload non-empty or error outcome")
+    rule = ("frame create/decode over ids 0..8 (plus 9..300) x payload lengths 0..300, lengths around the byte "
+            "boundaries of the length field (249..257, 32761..32769), boundary lengths 65527..65531, random lengths "
+            "(every create with its decode twin); None vs empty payload on ids 0..8, 9, 127, 255, 256, 300; runs of "
+            "creates on ONE long-lived SerialFrame whose payloads share id, length and the first 8..64 bytes and "
+            "differ later; crc over random strings; distinct = distinct (op,input,output); non-trivial = payload "
+            "non-empty or error outcome")
     assumptions = ["crcmod (third party) is validated against the Lean CRC by the `frame crc` cases, not verified",
                    "CPython struct is modelled by Struct.lean (cross-checked by the same cases)"]
 
     def __init__(self):
+        # ONE SerialFrame for all the cases of a run: the driver is stateless, so whatever a SerialFrame remembers
+        # between calls shows as a disagreement with the model
         self.sf = _sf()
 
     def cases(self, rng, tier):
-        lens = list(range(0, 301)) if tier == "thorough" else list(range(0, 40)) + [63, 64, 127, 128, 250, 255, 256, 257, 300]
+        T = tier == "thorough"
+        lens = list(range(0, 301)) if T else list(range(0, 40)) + [63, 64, 127, 128, 250, 255, 256, 257, 300]
         for fid in range(9):
             for n in lens:
-                p = bytes(rng.randrange(256) for _ in range(n))
+                p = rb(rng, n)
                 yield f"frame create {fid} {hexs(p)}", "create-small"
                 yield f"frame decode {hexs(ref_frame(fid, p))}", "decode-wire"
-        for fid in (0, 1, 5, 8):
+        # None and the empty payload are the same frame, on every id (and refused alike above 255)
+        for fid in list(range(9)) + [9, 127, 255, 256, 300]:
+            yield f"frame create {fid} none", "create-none"
+            yield f"frame create {fid} -", "create-empty"
             yield f"frame create {fid} none", "create-none"
         for fid in (9, 17, 85, 128, 255, 256, 300):
             yield f"frame create {fid} {hexs(bytes([fid & 0xff, 1, 2]))}", "create-bigid"
+        # the two bytes of the length field: totals 255..263 and 32767..32775
+        for i, n in enumerate(LEN16):
+            # thorough: every id; quick: three ids on the low byte boundary, one (rotating) id on the high one
+            for fid in (range(9) if T else ((0, 3, 8) if n < 1000 else ((i * 5 + rng.randrange(9)) % 9,))):
+                p = rb(rng, n)
+                yield f"frame create {fid} {hexs(p)}", "create-len16"
+                yield f"frame decode {hexs(wire(fid, p))}", "decode-len16"
         for n in (65527, 65528, 65529, 65530, 65531, 70000):
-            p = bytes(rng.randrange(256) for _ in range(n))
+            p = rb(rng, n)
             yield f"frame create {rng.randrange(9)} {hexs(p)}", "create-boundary"
             if n <= 65529:
-                yield f"frame decode {hexs(ref_frame(3, p))}", "decode-boundary"
-        for _ in range(200 if tier == "thorough" else 40):
+                yield f"frame decode {hexs(wire(3, p))}", "decode-boundary"
+        for _ in range(200 if T else 40):
             n = rng.choice([rng.randrange(0, 2000), rng.randrange(0, 66000)])
-            p = bytes(rng.randrange(256) for _ in range(n))
-            yield f"frame create {rng.randrange(9)} {hexs(p)}", "create-random"
-        for _ in range(300 if tier == "thorough" else 60):
+            p = rb(rng, n)
+            fid = rng.randrange(9)
+            yield f"frame create {fid} {hexs(p)}", "create-random"
+            if n <= 65529 and (T or n < 2000 or rng.random() < 0.25):
+                yield f"frame decode {hexs(wire(fid, p))}", "decode-random"
+        # same id, same length, same leading bytes, different later: frame_create must look at all of the payload
+        for fid, n, k in self.shared_prefix_plan(rng, T):
+            for p in self.shared_prefix_run(rng, n, k):
+                yield f"frame create {fid} {hexs(p)}", "create-shared-prefix"
+                yield f"frame decode {hexs(wire(fid, p))}", "decode-shared-prefix"
+        for _ in range(300 if T else 60):
             n = rng.randrange(0, 64)
-            yield f"frame crc {hexs(bytes(rng.randrange(256) for _ in range(n)))}", "crc"
+            yield f"frame crc {hexs(rb(rng, n))}", "crc"
+
+    @staticmethod
+    def shared_prefix_plan(rng, T):
+        plan = [(6, 9, 8), (7, 10, 8), (6, 16, 8), (7, 257, 8), (0, 40, 16), (1, 300, 64), (4, 2000, 8), (3, 9, 8)]
+        if T:
+            plan += [(fid, n, k) for fid in range(9) for n, k in ((9, 8), (12, 8), (33, 32), (600, 8))]
+            plan += [(rng.randrange(9), rng.randrange(9, 3000), rng.choice([8, 8, 16, 32])) for _ in range(20)]
+        return plan
+
+    @staticmethod
+    def shared_prefix_run(rng, n, k):
+        """payloads of n bytes that share their first k bytes (k < n): random tails, a tail differing in the last byte only,
+        a tail differing in byte k only, and the first payload once more at the end"""
+        k = max(1, min(k, n - 1))
+        head = rb(rng, k)
+        first = head + rb(rng, n - k)
+        out = [first]
+        out.append(first[:-1] + bytes([first[-1] ^ 0x01]))
+        out.append(first[:k] + bytes([first[k] ^ 0x80]) + first[k + 1:])
+        out.append(head + rb(rng, n - k))
+        out.append(first)
+        return out
 
     def impl(self, line):
         t = line.split(" ")
@@ -83,7 +154,7 @@ class C01(Prop):
                 return None
             if fid > 255:
                 return None
-            exp = ref_frame(fid, p)
+            exp = wire(fid, p)
             if isinstance(got, Exception) or got != exp:
                 return {"key": "wire-format", "what": f"frame_create({fid}, {len(p)} bytes) is not the NxScope serial encoding",
                         "expected": hexs(exp), "observed": repr(got) if isinstance(got, Exception) else hexs(got)}
@@ -97,7 +168,7 @@ class C01(Prop):
             d = unhex(t[2])
             # only wire frames are generated here: must decode to their id and payload
             if len(d) >= 6 and d[0] == 0x55 and d[3] <= 8 and int.from_bytes(d[1:3], "little") == len(d) \
-               and ref_crc16_xmodem(d) == 0:
+               and binascii.crc_hqx(d, 0) == 0 and (len(d) > 600 or ref_crc16_xmodem(d) == 0):
                 r = sf.frame_decode(d)
                 if r.err != 0 or int(r.fid) != d[3] or r.data != d[4:-2]:
                     return {"key": "decode-wire", "what": "a valid wire frame does not decode to its id and payload",
@@ -105,10 +176,113 @@ class C01(Prop):
             return None
         return None
 
+    # -- history: one long-lived SerialFrame / Parser, judged by the independent encoder --------------------------------
+    @staticmethod
+    def _run_sequence(ops):
+        """execute [(kind, ...)] on ONE SerialFrame and ONE Parser; return the first violation or None.
+        ops: ("create", fid, payload-hex|"none") | ("div", [divs]) | ("enable", [0/1...])"""
+        from nxslib.proto.parse import Parser
+        sf = _sf()
+        ps = Parser()
+        for i, op in enumerate(ops):
+            if op[0] == "create":
+                fid = op[1]
+                data = None if op[2] == "none" else unhex(op[2])
+                p = data or b""
+                call = f"SerialFrame.frame_create({fid}, {len(p)} bytes: {op[2][:40]}{'...' if len(op[2]) > 40 else ''})"
+                try:
+                    got = sf.frame_create(fid, data)
+                except Exception as e:
+                    got = e
+            elif op[0] == "div":
+                fid, p = 7, bytes([1, 0]) + bytes(op[1])
+                call = f"Parser.frame_div({op[1]}, {len(op[1])})"
+                try:
+                    got = ps.frame_div(list(op[1]), len(op[1]))
+                except Exception as e:
+                    got = e
+            else:
+                fid, p = 6, bytes([1, 0]) + bytes(op[1])
+                call = f"Parser.frame_enable({[bool(x) for x in op[1]]}, {len(op[1])})"
+                try:
+                    got = ps.frame_enable([bool(x) for x in op[1]], len(op[1]))
+                except Exception as e:
+                    got = e
+            exp = wire(fid, p)
+            if isinstance(got, Exception) or got != exp:
+                return {"key": "encoder-call" if i == 0 else "history-dependent-create", "step": i,
+                        "what": f"call #{i} on a long-lived encoder, {call}, did not emit the wire encoding of its own "
+                                "arguments (the same call on a fresh encoder is judged by the per-line cases)",
+                        "expected": hexs(exp), "observed": repr(got) if isinstance(got, Exception) else hexs(got)}
+            r = sf.frame_decode(got)
+            if r.err != 0 or int(r.fid) != fid or r.data != p:
+                return {"key": "encoder-call-round-trip" if i == 0 else "history-dependent-create", "step": i,
+                        "what": f"call #{i}: decode(create(id, payload)) != (id, payload) on the long-lived instance",
+                        "expected": f"{fid} {hexs(p)}", "observed": f"err={r.err} fid={r.fid} data={hexs(r.data)}"}
+        return None
+
+    def extra_checks(self, rng, tier, ev):
+        """frame_create must be a function of its arguments: ONE SerialFrame (and ONE client Parser) creates many frames
+        whose payloads share id, length and leading bytes but differ later, interleaved with repeats and with decodes"""
+        T = tier == "thorough"
+        viol = []
+        n_ops = 0
+        for _ in range(60 if T else 12):
+            ops = []
+            for _ in range(rng.randrange(2, 5)):
+                fid = rng.randrange(9)
+                n = rng.choice([9, 10, 12, 16, 17, 33, 100, 257, 1000])
+                k = rng.choice([8, 8, 8, 9, 16, 32])
+                k = min(k, n - 1)
+                for p in self.shared_prefix_run(rng, n, k):
+                    ops.append(("create", fid, hexs(p)))
+                ops.append(("create", fid, "none"))
+                ops.append(("create", fid, "-"))
+            # bulk divider / enable requests of the client: same channel count, same first channels, different later ones
+            for chmax in (rng.randrange(8, 40), rng.choice([64, 128, 255])):
+                head = [rng.randrange(1, 256) for _ in range(6)]
+                for _ in range(3):
+                    ops.append(("div", head + [rng.randrange(0, 256) for _ in range(chmax - 6)]))
+                ehead = [1, 0, 1, 1, 0, 1]
+                for _ in range(3):
+                    tail = [rng.randrange(2) for _ in range(chmax - 6)]
+                    if len(set(ehead + tail)) > 1:
+                        ops.append(("enable", ehead + tail))
+            if rng.random() < 0.3:
+                rng.shuffle(ops)
+            n_ops += len(ops)
+            v = self._run_sequence(ops)
+            if v:
+                seq = ops[:v["step"] + 1]
+                v1 = self._run_sequence([seq[-1]])
+                if v1:
+                    # not a matter of history: the call is wrong on a fresh encoder too
+                    v, seq = v1, [seq[-1]]
+                    v["what"] = v["what"].replace("on a long-lived encoder", "on a fresh encoder").replace(
+                        " (the same call on a fresh encoder is judged by the per-line cases)", "")
+                else:
+                    # minimise: one earlier call + the failing call is usually enough
+                    for j in range(len(seq) - 1):
+                        v2 = self._run_sequence([seq[j], seq[-1]])
+                        if v2:
+                            v, seq = v2, [seq[j], seq[-1]]
+                            break
+                v["sequence"] = [list(o) for o in seq]
+                v["case"] = f"sequence of {len(seq)} calls on one SerialFrame / Parser (see `sequence`)"
+                viol.append(v)
+                break
+        ev["coverage"]["long_lived_encoder_calls"] = n_ops
+        return viol
+
+    def replay(self, obj):
+        if "sequence" in obj:
+            return self._run_sequence([tuple(o) for o in obj["sequence"]])
+        return self.oracle(obj["case"])
+
     def search_cases(self, rng):
         for fid in range(9):
             for n in list(range(0, 20)) + [255, 256, 65529, 65530]:
-                yield f"frame create {fid} {hexs(bytes(rng.randrange(256) for _ in range(n)))}", "search"
+                yield f"frame create {fid} {hexs(rb(rng, n))}", "search"
 
 
 PROP = C01()
